@@ -123,6 +123,9 @@ type dpCtx struct {
 	tornTail   bool   // a crash left a partial record at the end of a pack
 	tornAppend bool   // ... and a later receive appended after it
 	reindexed  bool   // the index was rebuilt from the packs after the crash
+	reindexTA  bool   // ... after a receive had appended behind a torn tail
+	rowNoData  string // ref whose row the crash left without (all of) its data
+	refilled   bool   // ... and another blob was appended since, so that the stale extent is inside the file again
 	delRef     string // ref of the crashed removal
 	delBody    bool   // its body was zeroed
 	delHdr     bool   // its header was rewritten
@@ -190,7 +193,15 @@ func zeroedVersion(observed, truth []byte) bool {
 func (o *dpOracle) signature(class, ref string, observed []byte) string {
 	c := o.ctx
 	packReader := class == "stream-wrong-body" || class == "reindex-fails" || class == "removed-blob-streamed"
-	if c.tornAppend && (packReader || c.reindexed) {
+	if c.rowNoData != "" && ref == c.rowNoData && c.refilled {
+		switch class {
+		case "fetch-wrong-body", "acked-blob-not-streamed", "acked-blob-lost", "acked-blob-not-enumerated", "stat-wrong":
+			// the duplicate check compares sizes only: once other data fills the stale extent, the retry of the
+			// blob is acknowledged without being stored
+			return "dp-stale-row-extent-refilled-retry-acknowledged"
+		}
+	}
+	if c.tornAppend && (packReader || c.reindexTA) {
 		return "dp-append-after-torn-tail-pack-unparseable"
 	}
 	if (c.label == "delete-crash" || c.label == "remove-photo") && ref == c.delRef {
@@ -329,6 +340,9 @@ func (g *gen) dpReindex(o *dpOracle, mode string) {
 	line := "dp.reindex " + mode
 	out := g.op(line)
 	o.ctx.reindexed = true
+	if o.ctx.tornAppend {
+		o.ctx.reindexTA = true
+	}
 	g.r.Hit("mech:reindex-walk-rebuilds-index")
 	if out != "ok" && len(o.withStatus(stFree)) == 0 {
 		g.dpFail(o, "reindex-fails", "", "diskpacked.Reindex returns an error on the packs a crash left", "ok", nil, line)
@@ -360,6 +374,13 @@ func (g *gen) dpSess(o *dpOracle, subs []string, blobs [][]blobT) string {
 					o.ctx.dup[b.ref] = true
 				}
 				o.status[b.ref] = stAcked
+			}
+			if o.ctx.rowNoData != "" && grew {
+				for _, b := range bs {
+					if b.ref != o.ctx.rowNoData {
+						o.ctx.refilled = true
+					}
+				}
 			}
 			if o.ctx.tornTail && grew {
 				o.ctx.tornAppend = true
@@ -454,6 +475,23 @@ func (g *gen) continueAfterCrash(o *dpOracle, x blobT, again bool) {
 	g.dpReindex(o, "fresh")
 }
 
+// retry: from the current (crash) state, optionally rebuild the index, then receive x again; if that is
+// acknowledged, x must be served intact by Fetch, with its size by Stat, and be enumerated (dpRead
+// checks all three for an acknowledged blob).  The state is restored afterwards.
+func (g *gen) retry(o *dpOracle, x blobT, reindex string) {
+	g.op("dp.save 2")
+	oc := o.snapshot()
+	if reindex != "" {
+		g.dpReindex(oc, reindex)
+	}
+	out := g.dpSess(oc, []string{subRecv(x)}, [][]blobT{{x}})
+	g.r.Hit("retry:after-crash" + map[string]string{"": "", "fresh": "+reindex-fresh", "over": "+reindex-over"}[reindex])
+	if out == "ok" {
+		g.dpRead(oc)
+	}
+	g.op("dp.restore 2")
+}
+
 func (g *gen) scenarioAppendCrash(idx int) {
 	r, rnd := g.r, g.r.R
 	g.newCase(fmt.Sprintf("dp-append-crash-%d", idx))
@@ -470,6 +508,11 @@ func (g *gen) scenarioAppendCrash(idx int) {
 		x = blobT{ref, o.body[ref]}
 	default:
 		x = mkBlob(rnd, genBody(rnd, r.Thorough()))
+		o.add(x)
+	}
+	if idx%3 == 0 {
+		// always some new blobs with a body that can be cut at 0 / 1 / half / size-1 bytes
+		x = mkBlob(rnd, rnd.Bytes(8+rnd.Intn(40)))
 		o.add(x)
 	}
 	prior := o.status[x.ref]
@@ -518,6 +561,14 @@ func (g *gen) scenarioAppendCrash(idx int) {
 		for _, k := range keys {
 			pts = append(pts, cp{k, false, false})
 		}
+		// "index updated, data not (all) there": the row with a cut inside the header, at its end, inside the
+		// body (0, 1, half, size-1 bytes of it) – the states the duplicate-receive check is for
+		for _, k := range []int{0, 1, hdrLen - 1, hdrLen, hdrLen + 1, hdrLen + len(x.body)/2, total - 1} {
+			if k >= 0 && k < total && !ks[-1-k] {
+				ks[-1-k] = true
+				pts = append(pts, cp{k, false, true})
+			}
+		}
 		pts = append(pts, cp{total, false, false})
 		if rollover {
 			pts = append(pts, cp{total, true, false}, cp{total, false, true}, cp{total, true, true})
@@ -537,6 +588,14 @@ func (g *gen) scenarioAppendCrash(idx int) {
 		if total > 0 {
 			oc.ctx.label = "crash"
 		}
+		if pt.row && pt.keep < total {
+			// outside what the effect order allows (row before the data is durable): nothing is demanded of the
+			// readers until the client has sent the blob again
+			oc.status[x.ref] = stFree
+			oc.ctx.label = "row-without-data"
+			oc.ctx.rowNoData = x.ref
+			r.Hit("crash:row-without-data")
+		}
 		switch {
 		case pt.keep > 0 && pt.keep < hdrLen:
 			oc.ctx.tornTail = true
@@ -554,6 +613,16 @@ func (g *gen) scenarioAppendCrash(idx int) {
 			r.Distinct("dp:" + d)
 		}
 		g.dpRead(oc)
+		// the client's retry: the same blob is sent again after the restart – directly, and with a Reindex in
+		// between; an acknowledged retry must leave the blob fetchable intact, stat-able and enumerated
+		rowTorn := pt.row && pt.keep < total
+		g.retry(oc, x, "")
+		if i%2 == 0 || rowTorn {
+			g.retry(oc, x, "fresh")
+		}
+		if rowTorn {
+			g.retry(oc, x, "over")
+		}
 		// half of the points: rebuild the index right away; the others: go on working first
 		full := i%2 == 0 || (r.Thorough() && total <= 90)
 		if full {
@@ -671,6 +740,7 @@ func (g *gen) scenarioDeleteCrash(idx int) {
 		}
 		r.Distinct("dp:" + g.op("dp.dump"))
 		g.dpRead(oc) // restart with the index as the crash left it: Fetch/Stat/Enumerate/StreamBlobs
+		g.retry(oc, x, "")
 		g.op("dp.save 1")
 		g.dpReindex(oc.snapshot(), "fresh") // restart with the index rebuilt from the pack files alone
 		g.op("dp.restore 1")
@@ -696,6 +766,7 @@ func (g *gen) scenarioDeleteCrash(idx int) {
 		r.Hit(fmt.Sprintf("crash:delete-h%d-b%d-r%d", b2i[hdr], b2i[body], b2i[row]))
 		r.Distinct("dp:" + g.op("dp.dump"))
 		g.dpRead(oc)
+		g.retry(oc, x, "")
 		g.op("dp.save 1")
 		o2 := oc.snapshot()
 		g.dpReindex(o2, []string{"fresh", "over"}[rnd.Intn(2)])
@@ -1183,6 +1254,8 @@ var (
 	witnessDeleteZeroed = []string{"dp.init 0", "dp.sess r:" + fooRef + ":666f6f", "dp.sess d:" + fooRef, "dp.crash d 1 1 0", "dp.read " + fooRef}
 	witnessRowOutlives = []string{"dp.init 0", "dp.sess r:" + fooRef + ":666f6f", "dp.sess d:" + fooRef, "dp.crash d 1 0 0",
 		"dp.sess r:" + fooRef + ":666f6f", "dp.reindex fresh", "dp.read " + fooRef}
+	witnessRefilled = []string{"dp.init 0", "dp.sess r:" + fooRef + ":666f6f", "dp.crash a 50 0 1", "dp.sess r:" + barRef + ":626172",
+		"dp.sess r:" + fooRef + ":666f6f", "dp.read " + fooRef}
 	witnessDupResurrected = []string{"dp.init 0", "dp.sess r:" + fooRef + ":666f6f", "dp.crash a 52 0 0", "dp.sess r:" + fooRef + ":666f6f",
 		"dp.sess d:" + fooRef, "dp.reindex fresh", "dp.read " + fooRef}
 )
@@ -1194,6 +1267,8 @@ func (g *gen) probes() {
 	g.r.Probe("F-C03-2", o[len(o)-2] == "err" || !strings.Contains(o[len(o)-1], "F ok:3:626172 "), "torn header, restart, append, Reindex: "+o[len(o)-2]+" / "+o[len(o)-1])
 	_, o = probeOps(witnessDeleteZeroed)
 	g.r.Probe("F-C03-3", strings.Contains(o[len(o)-1], "F ok:3:000000 "), "crash between zeroing and row deletion: "+o[len(o)-1])
+	_, o = probeOps(witnessRefilled)
+	g.r.Probe("F-C03-6", o[len(o)-2] == "ok" && !strings.Contains(o[len(o)-1], "F ok:3:666f6f "), "row without data, another append, retry acknowledged: "+o[len(o)-1])
 	_, o = probeOps(witnessRowOutlives)
 	g.r.Probe("F-C03-5", o[len(o)-3] == "ok" && strings.Contains(o[len(o)-1], "F ne "), "row outlives the pack record, duplicate receive acknowledged, Reindex: "+o[len(o)-1])
 	_, o = probeOps(witnessDupResurrected)
